@@ -75,7 +75,7 @@ GEN = {"C06", "C07", "C13"}
 GEN_TEXT = (" Generator protocol (DESIGN.md 3.5): generator forms suspended / interleaved / abandoned / interrupted by a raising callback, the graph and later traversals compared "
             "with the reference in each situation.")
 EXTRA_TEXT = {
-    "C10": " SPLICE-ORDER includes tuple-like nodes (memoised after their children, with pickle's recursion test); a tuple on a reference cycle is a known finding (D20, known_findings.txt).",
+    "C10": " SPLICE-ORDER compares byte streams and includes real tuples (saved by a transcription of pickle's save_tuple under protocols 4/1/0, also on reference cycles: defect D20, repaired) and payloads of 64 KiB that the recursive pickler writes straight to the file.",
     "C11": " BUILD-SCALE: a key listing n neighbours, n keys (every third row empty, its key named by nobody), an n x n matrix, at the sizes the tree names and a default size.",
     "C20": " randgraph is also evaluated at the counts the tree itself names (size constants harvested from its source).",
 }
